@@ -213,7 +213,7 @@ class C13(Check):
             else:
                 self.run_sampler(scn, res)
         res.digest = jdigest([res.violations, res.key, dict(res.stats)])
-        res.sample = {k: scn[k] for k in scn if k not in ("seed", "run", "property", "expect")}
+        res.sample = {k: scn[k] for k in scn if k not in ("verif_seed", "run_index", "property", "expect")}
         return res
 
     def shrink(self, scn):
